@@ -2,6 +2,7 @@ package historyprunner
 
 import (
 	"encoding/binary"
+	"errors"
 	"fmt"
 
 	"github.com/NethermindEth/juno/core"
@@ -47,10 +48,17 @@ func copyStateHistory(
 
 	for addr, slots := range diff.StorageDiffs {
 		for slot := range slots {
-			if err := move(
+			err := move(
 				fillStorageHistoryKey(scratch.historyKey[:], &addr, &slot, blockBE),
 				fillStorageScratchKey(scratch.scratchKey[:], &addr, &slot, blockBE),
-			); err != nil {
+			)
+			if errors.Is(err, db.ErrKeyNotFound) {
+				// A diff entry that writes zero to a slot that was never set changes
+				// nothing: the state logs no history record for it, so there is
+				// nothing to carry over.
+				continue
+			}
+			if err != nil {
 				return fmt.Errorf(
 					"copying storage history at block %d, addr %x, slot %x: %w",
 					blockNum, addr, slot, err,
